@@ -45,14 +45,14 @@ Theorem C01_wf_check_sound : forall c, wf_check c = true -> WF c.
 Proof. exact wf_check_sound. Qed.
 Print Assumptions C01_wf_check_sound.
 
-(* every accepted program (identifiers not of the reserved form _Anon...) yields a well-formed object,
-   and the counter returned is beyond every anonymous name in it *)
-Theorem C01_compile_wf : forall ctr prefix d body c ctr', forallb stmt_ok body = true ->
+(* every accepted program yields a well-formed object, and the counter returned is beyond every
+   anonymous name in it (identifiers of the reserved form _Anon... are rejected by the compiler) *)
+Theorem C01_compile_wf : forall ctr prefix d body c ctr',
   compile_comp ctr prefix d body = OK (c, ctr') -> WF c /\ WF2 c /\ fresh_from c ctr'.
 Proof. exact compile_comp_inv. Qed.
 Print Assumptions C01_compile_wf.
 
-Theorem C01_compile_emit : forall ctr prefix d body c ctr', forallb stmt_ok body = true ->
+Theorem C01_compile_emit : forall ctr prefix d body c ctr',
   compile_comp ctr prefix d body = OK (c, ctr') ->
   pil_defs (emit_comp c) [] = Some (final_env c) /\
   pil_strands (emit_comp c) (final_env c) =
